@@ -1654,7 +1654,10 @@ def main(ctx):
         'value pair meets at some evaluation point) x the listed length '
         'pairs (LEN2X pairs over the start positions LEN2X_START only); '
         'operand kinds include plain Python functions next to a Function, '
-        'ragged three-level lists and arrayed_param; binary builtins and '
+        'ragged three-level lists and arrayed_param; mixed pairs decided by '
+        'the stream law: stream (Routine, op stream, stream of a pattern) x '
+        'pattern, pattern x stream, stream / pattern x channel list, and '
+        'the same as n-ary arguments; binary builtins and '
         'n-ary methods also with their declared default arguments omitted; '
         'the n-ary operators that take a string option (clip=) x every '
         'option value; every composed function is called twice at each of 3 '
@@ -1680,6 +1683,11 @@ def main(ctx):
         'differ (%, **, round, trunc, bitnot) either is accepted; an omitted '
         'argument means the numeric operator\'s own default where it declares '
         'one, else the default of the method signature',
+        'comparison is type-strict: an abstract object left unevaluated '
+        'where a number is due equals no number (its == would build a truthy '
+        'lazy object); function x stream, stream x function and channel '
+        'list x stream pairs are not decided by the statement and not '
+        'enumerated',
         'input values, keyword and spare arguments are only used in forms '
         'that every operand accepts on its own; n-ary operators with a plain '
         'number first and lifted arguments have no reflected hook in the '
